@@ -25,8 +25,10 @@ import (
 
 	"github.com/evstack/ev-node/node"
 	"github.com/evstack/ev-node/pkg/config"
+	genesispkg "github.com/evstack/ev-node/pkg/genesis"
 	"github.com/evstack/ev-node/pkg/p2p"
 	"github.com/evstack/ev-node/pkg/p2p/key"
+	"github.com/evstack/ev-node/pkg/signer"
 	storepkg "github.com/evstack/ev-node/pkg/store"
 	"github.com/evstack/ev-node/sequencers/single"
 
@@ -62,6 +64,9 @@ type rnode struct {
 	cut          bool
 	starts       int
 	light        bool
+	genesis      *genesispkg.Genesis // nil: the world's genesis
+	signer       signer.Signer       // nil: the world's proposer key (aggregators only)
+	extraPeers   string              // further configured P2P peers
 	lastIncluded uint64
 	wantUp       bool // the operator wants this node running: a refused start is retried at the next timeline step
 }
@@ -151,6 +156,10 @@ func (rw *rworld) start(rn *rnode) {
 	cfg := config.DefaultConfig
 	cfg.RootDir = sn.Root
 	cfg.ChainID = rw.w.Genesis.ChainID
+	gen := rw.w.Genesis
+	if rn.genesis != nil {
+		gen = *rn.genesis
+	}
 	cfg.Node.Aggregator = rn.agg
 	cfg.Node.Light = rn.light
 	cfg.Node.BlockTime = config.DurationWrapper{Duration: rw.bt}
@@ -163,6 +172,12 @@ func (rw *rworld) start(rn *rnode) {
 	cfg.Instrumentation = nil
 	if !rn.agg {
 		cfg.P2P.Peers = rw.aggAddr
+	}
+	if rn.extraPeers != "" {
+		if cfg.P2P.Peers != "" {
+			cfg.P2P.Peers += ","
+		}
+		cfg.P2P.Peers += rn.extraPeers
 	}
 	logger := logging.Logger("verif")
 	var db ds.Batching = sn.Disk.Open()
@@ -177,10 +192,13 @@ func (rw *rworld) start(rn *rnode) {
 		panic(err)
 	}
 	sg := rw.w.Signer
+	if rn.signer != nil {
+		sg = rn.signer
+	}
 	if !rn.agg {
 		sg = nil
 	}
-	n, err := node.NewNode(context.Background(), cfg, sn.Exec.For(sn.Fence), seq, da, sg, pc, rw.w.Genesis, db, node.DefaultMetricsProvider(config.DefaultInstrumentationConfig()), logger, node.NodeOptions{})
+	n, err := node.NewNode(context.Background(), cfg, sn.Exec.For(sn.Fence), seq, da, sg, pc, gen, db, node.DefaultMetricsProvider(config.DefaultInstrumentationConfig()), logger, node.NodeOptions{})
 	if err != nil {
 		rw.o.Fail("C13/node-cannot-start-again", "C13/node-cannot-start-again/"+rn.name, -1, fmt.Sprintf("start %d of %s on its durable image: NewNode: %v", rn.starts+1, rn.name, err), "a node that was stopped starts again")
 		return
